@@ -14,12 +14,12 @@ import (
 
 func TestMain(m *testing.M) {
 	vk.Main(m, "C04", "exploration",
-		"exhaustive grid start,end in [-4,4], step in {-3..3}\\{0} (486 triples), each in 2 of 5 spellings per run (literal, omitted start/step, variables, parenthesised expressions, traced calls; the pair rotates with VERIF_SEED, thorough runs all 5) plus rapid-drawn larger bounds; every triple is printed from for <-, for in, for := range, for range (count), for <- if, list/map/select/exists comprehensions and a nested two-phrase comprehension, each loop with a 64-iteration fuse. Oracle: all contexts print the sequence of the reference loop for i:=start; (step>0 && i<end)||(step<0 && i>end); i+=step. Non-trivial = not (unit step and at most one element); distinct = (start,end,step,spelling)")
+		"exhaustive grid start,end in [-4,4], step in {-3..3}\\{0} (486 triples), each in 2 of 7 spellings per run (literal, omitted start/step, variables, parenthesised expressions, traced calls, constants, mixed operand forms; the pair rotates with VERIF_SEED, thorough runs all 7) plus rapid-drawn larger bounds; every triple is printed from for <-, for in, for := range, for = range, labelled for <- with continue, for range (count), for <- if, list/map/select/exists comprehensions and a nested two-phrase comprehension, each loop with a 64-iteration fuse. Oracle: all contexts print the sequence of the reference loop for i:=start; (step>0 && i<end)||(step<0 && i>end); i+=step. Non-trivial = not (unit step and at most one element); distinct = (start,end,step,spelling)")
 }
 
 var oracle = sugarcheck.NewOracle("pair", nil)
 
-var spellings = []string{"literal", "omit", "var", "expr", "call"}
+var spellings = []string{"literal", "omit", "var", "expr", "call", "const", "mixed"}
 
 func negKnown() bool {
 	return vk.R.HasKnown("differs:range-neg-stmt")
